@@ -251,55 +251,17 @@ def d7_5(ctx):
     ctx.check(good, ckey(tbl.key + ".get_type"), gt or tbl.node, "every type code resolves to a class carrying it (code -> name -> class)", f"get_type does not resolve these type codes to the class of that code: {bad_codes}")
 
 
-@rule(P, "D7.6", "T-LAYOUT", floor=5)
+@rule(P, "D7.6", "T-WITNESS", floor=5)
 def d7_6(ctx):
-    """Arrays are concatenated elements in index order; structs concatenate members in declaration order; StructTag places members at their offsets and BOOL members in their host bits."""
-    arr = ctx.model.cls(f"{DT}:Array.Array")
-    enc = arr.methods.get("encode")
-    good, facts = False, {}
-    for r in [enc] if enc else []:
-        for call in walk(r):
-            if isinstance(call, ast.Call) and isinstance(call.func, ast.Attribute) and call.func.attr == "join" and call.args and isinstance(call.args[0], (ast.GeneratorExp, ast.ListComp)):
-                g = call.args[0]
-                gen = g.generators[0]
-                sep = ctx.folder.eval(call.func.value, arr.module)
-                i = atom_name(gen.target)
-                rng = gen.iter
-                elt = g.elt
-                is_range = isinstance(rng, ast.Call) and call_name(rng) == "range" and len(rng.args) == 1
-                elt_ok = isinstance(elt, ast.Call) and attr_path(elt.func) == "cls.element_type.encode" and elt.args and isinstance(elt.args[0], ast.Subscript) and atom_name(elt.args[0].slice) == i
-                direct = isinstance(elt, ast.Call) and attr_path(elt.func) == "cls.element_type.encode" and elt.args and atom_name(elt.args[0]) == i and not is_range
-                facts = {"join": src(call)[:120]}
-                good = sep == b"" and ((is_range and elt_ok) or direct) and not gen.ifs
-    ctx.check(good, ckey(arr.key + ".encode", "order"), enc or arr.node, "b''.join(element.encode(values[i]) for i in range(n))", "array elements are not concatenated in index order without separator", **facts)
-    dec = arr.methods.get("decode")
-    good = False
-    for n in walk(dec) if dec else []:
-        if isinstance(n, ast.ListComp) and isinstance(n.elt, ast.Call) and attr_path(n.elt.func) == "cls.element_type.decode" and n.elt.args and atom_name(n.elt.args[0]) == "stream":
-            gen = n.generators[0]
-            good = isinstance(gen.iter, ast.Call) and call_name(gen.iter) == "range" and not gen.ifs
-    ctx.check(good, ckey(arr.key + ".decode", "order"), dec or arr.node, "elements decoded sequentially from the one stream", "array decode does not read the elements sequentially from the stream")
-    st = ctx.model.cls(f"{DT}:Struct.Struct")
-    dc, fn, lay = write_layout(ctx, st)
-    fl = flatten(lay or [])
-    good = False
-    if len(fl) == 1 and fl[0][0] == "alt":
-        arms = [fl[0][2], fl[0][3]]
-        good = all(len(a) == 1 and a[0][0] == "each" and (a[0][2] == "cls.members" or a[0][2].startswith("zip(cls.members,")) and len(a[0][3]) == 1 and a[0][3][0][0] == "ref" and a[0][3][0][1].startswith("typ.encode(") for a in arms)
-    ctx.check(good, ckey(st.key + "._encode", "order"), fn or st.node, "members concatenated in declaration order in both input forms", f"struct members are not concatenated in cls.members order: {show(lay)}", layout=show(lay))
-    d = st.methods.get("_decode")
-    good = False
-    for n in walk(d) if d else []:
-        if isinstance(n, ast.DictComp):
-            gen = n.generators[0]
-            good = atom_name(gen.iter) == "cls.members" and isinstance(n.value, ast.Call) and n.value.func.attr == "decode" and atom_name(n.value.func.value) == atom_name(gen.target) and atom_name(n.key) == atom_name(gen.target) + ".name" and not gen.ifs
-    ctx.check(good, ckey(st.key + "._decode", "order"), d or st.node, "members decoded in declaration order from the one stream", "struct decode does not visit cls.members in order")
-    # StructTag
-    tag = ctx.model.cls(f"{CT}:StructTag.StructTag")
-    e, d = tag.methods.get("_encode"), tag.methods.get("_decode")
-    facts = _structtag_facts(ctx, tag, e, d)
-    for role, (ok, what, node) in facts.items():
-        ctx.check(ok, ckey(tag.key, role), node or tag.node, what, what)
+    """Arrays are concatenated elements in index order; structs concatenate members in declaration order; StructTag places members
+    at their offsets and BOOL members in their host bits.  Decided by folding the three generated classes on witness members
+    (D7.10, D7.12, D7.8); an earlier form matched the comprehension and the `offset = cls._offsets[member]` statement and alarmed
+    on explicit loops and on a renamed local."""
+    from .driver import _array_rule, _struct_rule, _structtag_rule
+
+    _array_rule(ctx)
+    _struct_rule(ctx)
+    _structtag_rule(ctx)
 
 
 def _structtag_facts(ctx, tag, e, d):
